@@ -317,7 +317,7 @@ void runCsv(const Plan& p)
 				{
 					c.kind = 1;
 					double m = (double)(int64_t)r.range(-999999999999999LL, 999999999999999LL);
-					int e = (int)r.range(-20, 5);
+					int e = r.below(4) == 0 ? (int)r.range(-320, 290) : (int)r.range(-20, 5);
 					c.dv = m * pow(10.0, e);
 					break;
 				}
